@@ -478,6 +478,53 @@ def degenerate_cases(tier, rng):
     return out
 
 
+# ------------------------------------------------------------------ attribute-key configurations
+
+def _with_extra(g, rng=None):
+    """every node gets a 'kind' attribute (a renaming of the element) and every edge a 'bond' attribute (constant), so that
+    renamed keys exist; the default-named attributes keep their (varying) values"""
+    import copy
+    g = copy.deepcopy(g)
+    for n, a in g["nodes"]:
+        a["kind"] = {"C": "x", "O": "y", "N": "z"}.get(a.get("element"), "w")
+    for e in g["edges"]:
+        e[2]["bond"] = 1
+    return g
+
+
+def _cp_anion():
+    """cyclopentadienyl anion, Kekule form: ring of 5 C, one carries charge -1 and hcount differs, bond orders 1 / 2"""
+    g = _mk(5, [(1, 2, 1), (2, 3, 2), (3, 4, 1), (4, 5, 2), (5, 1, 1)])
+    g["nodes"][0][1].update(charge=-1)
+    for k in (1, 2, 3, 4):
+        g["nodes"][k][1].update(hcount=1)
+    return g
+
+
+KEY_CONFIGS = [
+    (None, None), (["element"], None), (["element"], ["bond"]), (["kind"], ["bond"]), (["charge"], ["order"]), (["element", "charge"], []),
+    ([], None), ([], []), (["hcount"], ["order", "bond"]), (["charge", "element"], ["bond", "order"]), (["element", "charge", "hcount"], ["order"]),
+    (None, ["bond"]), (["kind", "charge"], None),
+]
+
+
+def keys_cases(tier, rng):
+    """non-default key configurations (reduced, empty, renamed, permuted, extended) on graphs where the OMITTED attributes
+    differ between atoms / bonds that are exchangeable under the configured labels"""
+    base = [("cp-anion", _cp_anion()), ("kekule-benzene", ring_alt(6)), ("pyridine-like", with_label(ring_alt(6), 0, element="N")),
+            ("path4-O-end", with_label(path(4), 0, element="O")), ("star3-one-charge", with_label(star(3), 1, charge=1)),
+            ("2tri-one-charged", with_label(disjoint(GG.cycle(3), GG.cycle(3)), 0, charge=1)),
+            ("K2_3-dbl", _sym_break("K2_3", GG.complete_bipartite(2, 3), rng)[-1][1])]
+    out = []
+    for name, g in base:
+        g = _with_extra(g)
+        for ci, (nk, ek) in enumerate(KEY_CONFIGS):
+            if tier == "quick" and name not in ("cp-anion", "kekule-benzene") and (ci + len(name)) % 3:
+                continue
+            out.append(dict(kind="keys", name="keys/%s/%d" % (name, ci), g=g, nk=nk, ek=ek))
+    return out
+
+
 # ------------------------------------------------------------------ history cases
 
 # product-asymmetric rule, its symmetric sibling (same left side, same bond changes, no node-level change), a renumbering
@@ -541,6 +588,24 @@ def history_cases(tier, rng):
         # the same value with non-default attribute selections first, then the defaults (no edit at all)
         out.append(dict(kind="hist", script="aut", name="hist/aut-options/" + name, g=g,
                         steps=[dict(nk=["element"]), dict(nk=None), dict(nk=["element", "charge", "hcount"]), dict(nk=["charge", "element"]), dict(nk=None)]))
+    # edits that make the graph MORE symmetric than it was when the long-lived objects were created / first fitted
+    # (a stale per-object memo of labels or bond orders then separates atoms that have become exchangeable)
+    kek = _with_extra(with_label(ring_alt(6), 0, element="N"))               # Kekule pyridine
+    ring = [[u, v] for u, v, _ in kek["edges"]]
+    out.append(dict(kind="hist", script="aut", name="hist/aut/kekule-pyridine-to-aromatic", g=kek, steps=[
+        dict(edit=[]), dict(edit=[["order", u, v, 1.5] for u, v in ring]),            # every ring bond 1.5: the mirror appears
+        dict(edit=[["relabel", 1, {"element": "C"}]]),                                # N -> C: benzene, 12 automorphisms
+        dict(edit=[["order", ring[0][0], ring[0][1], 2]], nk=["element"], ek=["bond"]),
+        dict(edit=[["order", ring[0][0], ring[0][1], 1.5]], nk=["kind"], ek=["order"])]))
+    asym = with_label(with_label(path(5), 0, element="O"), 4, charge=1)
+    asym["edges"][0][2]["order"] = 2
+    out.append(dict(kind="hist", script="aut", name="hist/aut/path5-symmetrised", g=_with_extra(asym), steps=[
+        dict(edit=[]), dict(edit=[["order", 1, 2, 1]]), dict(edit=[["relabel", 1, {"element": "C"}]]),
+        dict(edit=[["relabel", 5, {"charge": 0}]]), dict(edit=[["relabel", 3, {"hcount": 2}]], nk=["element", "charge"], ek=[])]))
+    cp = _with_extra(_cp_anion())
+    out.append(dict(kind="hist", script="aut", name="hist/aut/cp-anion-keys", g=cp, steps=[
+        dict(edit=[], nk=["element"], ek=["bond"]), dict(edit=[]), dict(edit=[["relabel", 1, {"charge": 0, "hcount": 1}]]),
+        dict(edit=[["order", u, v, 1.5] for u, v, _ in cp["edges"]]), dict(edit=[], nk=[], ek=[])]))
     if tier != "quick":
         for k in range(60):
             g = random_sym_graph(rng)
@@ -594,6 +659,7 @@ def gen_cases(tier, rng):
     for k in range(260 if tier == "quick" else 3000):
         cases.append(dedup_case(rng, k))
     cases += degenerate_cases(tier, rng)
+    cases += keys_cases(tier, rng)
     cases += repeated_species_cases(tier, rng)
     cases += history_cases(tier, rng)
     # rule applications
